@@ -1,6 +1,6 @@
 (* Props_C03.v — property theorems of C03 (tags: listing and paging are exact).
    Only statements closed by [exact]; proofs live in TagProofs.v / IndexProofs.v. *)
-From Olareg Require Import Base Index Reg IndexProofs TagProofs.
+From Olareg Require Import Base Index Reg IndexProofs TagProofs IndexInv RegInv.
 From Coq Require Import Sorted.
 Local Open Scope list_scope.
 
@@ -58,3 +58,37 @@ Proof.
   unfold TagsUnique. split; [|split; reflexivity].
   vm_compute. repeat constructor; simpl; intuition congruence.
 Qed.
+
+(* The hypothesis of the listing theorems is an invariant: in every state reachable by any history of client requests
+   every repository's index holds each tag on at most one entry ... *)
+Theorem C03_tags_unique_reachable : forall cfg E h r,
+  TagsUnique (r_index (get_repo cfg r (fst (run_hist cfg E init_state h)))).
+Proof. exact tags_unique_reachable. Qed.
+Print Assumptions C03_tags_unique_reachable.
+
+(* ... so listing and paging are exact in every reachable state, unconditionally *)
+Theorem C03_list_exact_reachable : forall cfg E h r last,
+  let i := r_index (get_repo cfg r (fst (run_hist cfg E init_state h))) in
+  StronglySorted slt (tag_all i last) /\ (forall t, In t (tag_all i last) <-> In t (tags_of i) /\ slt last t).
+Proof. intros cfg E h r last. exact (tag_list_exact _ last (tags_unique_reachable cfg E h r)). Qed.
+
+Theorem C03_paging_reachable : forall cfg E h r k, (0 < k)%Z ->
+  let i := r_index (get_repo cfg r (fst (run_hist cfg E init_state h))) in
+  exists pages, walk i k (S (List.length (tag_all i ""))) "" = Some pages
+                /\ List.concat pages = tag_all i ""
+                /\ Forall (fun p => (Z.of_nat (List.length p) <= k)%Z) pages.
+Proof. intros cfg E h r k Hk. exact (tag_paging_exact _ k (tags_unique_reachable cfg E h r) Hk). Qed.
+Print Assumptions C03_paging_reachable.
+
+(* last writer wins: after an insertion under tag t some entry holds t and has the pushed digest (and, tags being
+   unique, it is the only one); entries holding other tags are untouched *)
+Theorem C03_pushed_tag_resolves : forall d cs i i',
+  ann_get RefName d <> "" -> add_desc d cs i = Ok i' ->
+  exists e, In e (top i') /\ holds (ann_get RefName d) e = true /\ d_dig e = d_dig d.
+Proof. exact add_desc_places. Qed.
+Theorem C03_other_tags_kept : forall d cs i i' x t',
+  add_desc d cs i = Ok i' ->
+  In x (top i) -> holds t' x = true -> t' <> "" -> t' <> ann_get RefName d -> ann_get RefSubject x = "" ->
+  In x (top i').
+Proof. exact add_desc_keeps_other_tags. Qed.
+Print Assumptions C03_other_tags_kept.
